@@ -42,10 +42,12 @@ def bitsv3(b):
     return (bitsf(b[0]), bitsf(b[1]), bitsf(b[2]))
 
 
-def to_ticks(t):
-    """float seconds -> integer ticks when exact, else the raw float (will not compare equal)."""
+def to_ticks(t, tick=TICK):
+    """float seconds -> integer ticks when exact, else the raw float (will not compare equal).
+    `tick` = ticks per second of the scenario (a power of two; 1024 by default, 2^40 in the fine regime
+    where one tick is 9e-13 s and 'one tick in the past' is far below any 1e-9 tolerance)."""
     try:
-        k = t * TICK
+        k = t * tick
         if k == int(k):
             return int(k)
     except (OverflowError, ValueError, TypeError):
